@@ -185,7 +185,7 @@ func GenTwoBranchReclaimFamily(t *rapid.T) *World {
 	c.PlacementCPU = "binpack"
 	c.MaxConsolidation = 16
 	c.ConsolidatingReclaim = chance(t, 3, "consolidatingReclaim")
-	c.SaturationMultiplier = pickS(t, "satMult", "", "", "1.2")
+	c.SaturationMultiplier = pickS(t, "satMult", "", "1.2", "1.5", "2")
 	sNP, sP := between(t, 0, 3, "sNonPreemptible"), between(t, 1, 3, "sPreemptible")
 	oNP, oP := between(t, 0, 4, "oNonPreemptible"), between(t, 1, 3, "oPreemptible")
 	lo := sP
